@@ -3,7 +3,7 @@
  "name": "update_entry",
  "props": ["C15"],
  "level": "U",
- "tier": "wip",
+ "tier": "quick",
  "harness": "h_update_entry",
  "enforce": ["xattr_update_entry"],
  "replace": ["xattr_create_ea_inode", "xattr_inode_dec_ref"],
